@@ -1050,3 +1050,22 @@ func returnedValuesU(f *ssa.Function, i int) []ssa.Value {
 	}
 	return out
 }
+
+// pathLoadSource: v is a load on the path; the value most recently stored to the same address earlier on the
+// path (nil if v is not a load or no such store precedes it). Sound for variables no other goroutine writes.
+func pathLoadSource(p *upath, v ssa.Value) ssa.Value {
+	ld, ok := v.(*ssa.UnOp)
+	if !ok || ld.Op != token.MUL {
+		return nil
+	}
+	idx := p.indexOf(ld)
+	if idx < 0 {
+		return nil
+	}
+	for i := idx - 1; i >= 0; i-- {
+		if st, ok := p.Instrs[i].(*ssa.Store); ok && (st.Addr == ld.X || (cellOf(st.Addr) != nil && cellOf(st.Addr) == cellOf(ld.X))) {
+			return st.Val
+		}
+	}
+	return nil
+}
